@@ -9,7 +9,7 @@ order, unchanged), plus a raw HDF5 scan: no object with a deleted entity_id is
 reachable through any link of the file.
 """
 from mc import env  # noqa: F401
-from mc import explorer, rawdigest, ops as O
+from mc import explorer, rawdigest, bfs, ops as O
 from mc.core import R
 
 LEVEL = "model_checking"
@@ -34,9 +34,11 @@ def BOUNDS(tier):
     if tier == "quick":
         return {"rich": "k=0: every delete x 5 addressing modes (features also by data name/id), every unlink; chains of 2 deletes by name on mini/light",
                 "mini": "k<=1 then every removal (all addressing modes)", "block": "k<=1 (thin) then every removal by name",
-                "light": "k<=1 (section links, metadata) then every removal by name"}
+                "light": "k<=1 (section links, metadata) then every removal by name",
+                "states mode (E1s)": "mini: every link topology <= 2 link operations away (235 canonical states), every removal by name from each"}
     return {"rich": "k=0 all removals; chains of 2 removals by name; k=1 (thin) then removal by name",
-            "mini": "k<=2 then every removal", "block": "k<=1 then every removal"}
+            "mini": "k<=2 then every removal", "block": "k<=1 then every removal",
+            "states mode (E1s)": "mini: link topologies <= 3 link operations away (1 642 states) x every removal in every addressing mode; block <= 2 (1 266) and light <= 3 (7 148) x every removal by name"}
 
 
 def cases(tier):
@@ -66,7 +68,22 @@ def cases(tier):
         if k not in seen:
             seen.add(k)
             uniq.append(c)
+    # E1s: explicit-state BFS over link topologies (de-duplicated on the canonical state), then every removal
+    if tier == "quick":
+        plan = [("mini", 2, "linking", "removing-name")]
+    else:
+        plan = [("mini", 3, "linking", "removing"), ("block", 2, "linking-thin", "removing-name"),
+                ("light", 3, "linking-thin", "removing-name")]
+    for seed, depth, grow, fire in plan:
+        states, stats = bfs.enumerate_states(seed, depth, CFG[grow], cache_key=grow)
+        BFS_STATS["%s/%d/%s" % (seed, depth, grow)] = stats
+        for st in states:
+            uniq.append(dict(st, mode="expand", cfg=fire))
     return uniq
+
+
+CFG = {"linking": LINKING, "linking-thin": LINKING_THIN, "removing": REMOVING, "removing-name": REMOVING_NAME}
+BFS_STATS = {}
 
 
 def post(r, s, m_prev, m, op, tk, prev_map):
@@ -90,6 +107,9 @@ def post(r, s, m_prev, m, op, tk, prev_map):
 
 def run_case(case):
     r = R()
+    if case.get("mode") == "expand":
+        bfs.expand_state("C04", case, r, CFG[case["cfg"]], post=post, reopen_modes=("rw",))
+        return r
     r.evals = 1
     explorer.run_history("C04", case, r, post=post)
     if not r.violations:
